@@ -10,11 +10,6 @@ open PtModel PtModel.Neutron
 
 /-! ## C04: conversions between energy, wavelength and velocity -/
 
-theorem energyFactor_pos : (0 : ℝ) < PtGen.ENERGY_FACTOR := by
-  unfold PtGen.ENERGY_FACTOR PtGen.plancks_constant PtGen.electron_volt PtGen.neutron_mass
-    PtGen.atomic_mass_constant
-  positivity
-
 theorem velocityFactor_pos : (0 : ℝ) < PtGen.VELOCITY_FACTOR := by
   unfold PtGen.VELOCITY_FACTOR PtGen.plancks_constant PtGen.electron_volt PtGen.neutron_mass
     PtGen.atomic_mass_constant
@@ -36,11 +31,6 @@ theorem energy_mul_lambda_sq (w : ℝ) (hw : w ≠ 0) :
 theorem v_mul_lambda (v : ℝ) (hv : v ≠ 0) :
     v * neutronWavelengthFromVelocity v = PtGen.VELOCITY_FACTOR := by
   unfold neutronWavelengthFromVelocity; field_simp
-
-/-- the wavelength is positive for a positive energy -/
-theorem neutronWavelength_pos (e : ℝ) (he : 0 < e) : 0 < neutronWavelength e := by
-  unfold neutronWavelength
-  exact Real.sqrt_pos.mpr (div_pos energyFactor_pos he)
 
 /-- energy → wavelength → energy is the identity -/
 theorem energy_wavelength_roundtrip (e : ℝ) (he : 0 < e) :
